@@ -47,7 +47,322 @@ class cache_get:
     another worker thread)."""
     params = dict(self=TCache(), backend=T.Backend())
     replay = staticmethod(_replay_cache)
+    result = lambda interp, bound: list(bound["self"].attrs["_dict"].values())[0]
     ensures = {
         "pure_read": "writes_to(self._dict) == 0",
         "hit": "result is not None and len(self._dict) == 1",
     }
+
+
+# ---------------------------------------------------------------------------
+# declared shape of the lazily constructed correlation landscape
+from pyvc.values import ceil_ as _ceil, trunc as _trunc, smax as _smax, smin as _smin
+
+_MS = T.Tuple(T.Real(lo=0), T.Real(lo=0), T.Real(lo=0))
+_IMG = T.Arr(3, "real")
+_MODELS = ("ZNCCAlignment", "NCCAlignment", "PCCAlignment", "FSCAlignment")
+
+
+def lds_len(kind, m, up, s):
+    """length of one landscape axis as the alignment models compute it (box length s, search range m px, factor up)"""
+    if up > 1:
+        return 2 * _trunc(m * up) + 1                      # the up-sampling mesh: linspace with 2*int(m*up)+1 points
+    if kind == "FSCAlignment":
+        return 2 * _ceil(m) + 1                            # phase-ramp scan over -ceil(m)..ceil(m)
+    if kind == "PCCAlignment":                             # window of the shifted power spectrum, clipped to the box
+        return _smin(s // 2 + _trunc(m) + 1, s) - _smax(s // 2 - _trunc(m), 0)
+    return 2 * _trunc(m) + 1                               # cropped padded correlation
+
+
+_HL = dict(lds_len=lds_len, trunc=_trunc, ceil=_ceil)
+
+for _name in ("zncc_landscape_with_crop", "ncc_landscape_with_crop"):
+    @contract(f"acryo.backend._zncc:{_name}", props=["C10", "C05"])
+    class landscape_with_crop:
+        params = dict(img0=_IMG, img1=_IMG, max_shifts=_MS, backend=T.Backend())
+        requires = ["all(img0.shape[a] == img1.shape[a] for a in range(3))"]
+        helpers = _HL
+        result = lambda interp, bound: fresh_array("landscape", 3, "real", path=interp.path)
+        ensures = {"shape": "all(result.shape[a] == 2 * trunc(max_shifts[a]) + 1 for a in range(3))"}
+
+
+@contract("acryo.backend._pcc:pcc_landscape", props=["C10", "C05"])
+class pcc_landscape:
+    params = dict(f0=_IMG, f1=_IMG, max_shifts=_MS, backend=T.Backend())
+    requires = ["all(f0.shape[a] == f1.shape[a] for a in range(3))"]
+    helpers = _HL
+    result = lambda interp, bound: fresh_array("landscape", 3, "real", path=interp.path)
+    ensures = {"shape": "all(result.shape[a] == lds_len('PCCAlignment', max_shifts[a], 1, f0.shape[a]) for a in range(3))"}
+
+
+class TAlignModel(TSpec):
+    """a constructed single-template, no-rotation alignment model of one of the four concrete classes: box shape S,
+    template cache holding the one entry that __init__ stored (pre-transformed template and mask, both of shape S)"""
+
+    def __init__(self, kinds=_MODELS, multi=False):
+        self.kinds, self.multi = kinds, multi
+
+    def cases(self):
+        return [_TAlignModelCase(k, self.multi) for k in self.kinds]
+
+
+class _TAlignModelCase(TSpec):
+    def __init__(self, kind, multi):
+        self.kind, self.multi = kind, multi
+        self.value = kind + (" (several candidates)" if multi else "")
+
+    def fresh(self, name, path):
+        import z3
+        from pyvc.values import Sym
+        interp = path.interp
+        cls = interp.resolve(f"acryo.alignment._concrete:{self.kind}")
+        s = tuple(Sym(z3.Int(f"{name}_box_{a}")) for a in range(3))
+        for x in s:
+            path.assume(x >= 1)
+        if self.multi:
+            nt, nr = Sym(z3.Int(f"{name}_T")), Sym(z3.Int(f"{name}_K"))
+            path.assume(nt >= 1)
+            path.assume(nr >= 1)
+            path.assume(nt * nr > 1)
+            lead = (nt * nr,)
+        else:
+            nt, nr, lead = 1, 1, ()
+        tmpl = fresh_array(name + "_template", 3, "real", shape=s)
+        mask = fresh_array(name + "_mask", 3, "real", shape=s)
+        tin = fresh_array(name + "_template_input", 3 + len(lead), "real", shape=lead + s)
+        min_ = fresh_array(name + "_mask_input", 3 + len(lead), "real", shape=lead + s)
+        b0 = T.Backend().fresh(name + "_b0", path)
+        cache = _X.Obj(interp.resolve("acryo.alignment._base:TemplateMaskCache"), {"_dict": {b0: (tin, min_)}})
+        wedge = _X.Obj(interp.resolve("acryo.tilt._base:NoWedge"), {})
+        cutoff = Sym(z3.Real(f"{name}_cutoff"))
+        return _X.Obj(cls, {"_n_templates": nt, "_n_rotations": nr, "_template": tmpl, "_mask": mask, "_ndim": 3,
+                            "_template_mask_cache": cache, "_tilt_model": wedge, "_cutoff": cutoff})
+
+    def src(self, name, model):
+        s = tuple(max(int(model.get(f"{name}_box_{a}", 9)), 1) for a in range(3))
+        return f"_make_model({self.kind!r}, {s!r})"
+
+
+_MODEL_IMPORTS = '''
+import numpy as np
+import acryo.alignment as _alm
+def _make_model(kind, shape):
+    rng = np.random.default_rng(5)
+    return getattr(_alm, kind)(rng.normal(size=shape).astype(np.float32))
+'''
+
+
+def _inline(key):
+    def hook(interp, f, args, kwargs):
+        return interp.exec_function(f, args, kwargs)
+    return hook
+
+
+def cls_kind(obj):
+    return obj.cls.name if hasattr(obj, "cls") else type(obj).__name__
+
+
+@contract("acryo.alignment._base:BaseAlignmentModel.landscape", props=["C10"])
+class model_landscape:
+    """What one landscape task does with the model it shares with all other tasks: it only reads the model (the
+    template cache is hit, nothing is stored), and the array it returns has the model's landscape shape."""
+    params = dict(self=TAlignModel(), img=_IMG, max_shifts=_MS, quaternion=T.OneOf(None, T.Arr(1, "real", shape=(4,))),
+                  pos=T.Const(None), upsample=T.Int(lo=1), backend=T.Const(None))
+    requires = ["all(img.shape[a] == self._template.shape[a] for a in range(3))"]
+    helpers = dict(_HL, cls_kind=cls_kind)
+    native_helpers = dict(cls_kind=lambda o: type(o).__name__)
+    imports = _MODEL_IMPORTS
+    native_call = ("args['self'].landscape(args['img'], args['max_shifts'], quaternion=args['quaternion'], "
+                   "upsample=args['upsample'])")
+    native = {"reads_shared_cache_only": "len(self._template_mask_cache._dict) == 1",
+              "shape": "all(result.shape[a] == lds_len(cls_kind(self), max_shifts[a], upsample, img.shape[a]) for a in range(3))"}
+    setup = staticmethod(lambda interp: interp.call_hooks.__setitem__(
+        "acryo.alignment._base:RotationImplemented._get_template_and_mask_input",
+        _inline("acryo.alignment._base:RotationImplemented._get_template_and_mask_input")))
+    result = lambda interp, bound: fresh_array("landscape", 3, "real", path=interp.path)
+    ensures = {
+        "reads_shared_cache_only": "writes_to(self._template_mask_cache._dict) == 0",
+        "shape": "all(result.shape[a] == lds_len(cls_kind(self), max_shifts[a], upsample, img.shape[a]) for a in range(3))",
+    }
+
+
+# the declared landscape shape ------------------------------------------------------------------------------
+def _shape3(interp, bound):
+    import z3
+    from pyvc.values import Sym
+    out = tuple(Sym(z3.Int(V.fresh_name("lds_shape"))) for _ in range(3))
+    for x in out:
+        interp.path.assume(x >= 1)
+    return out
+
+
+for _key, _kinds in (("acryo.alignment._base:BaseAlignmentModel._landscape_shape", ("ZNCCAlignment", "NCCAlignment")),
+                     ("acryo.alignment._concrete:PCCAlignment._landscape_shape", ("PCCAlignment",)),
+                     ("acryo.alignment._concrete:FSCAlignment._landscape_shape", ("FSCAlignment",))):
+    @contract(_key, props=["C10"])
+    class landscape_shape:
+        """the shape a model announces for its landscape is the shape `landscape` is proved to return"""
+        params = dict(self=TAlignModel(_kinds), max_shifts=_MS, upsample=T.Int(lo=1))
+        helpers = dict(_HL, cls_kind=cls_kind)
+        native_helpers = dict(cls_kind=lambda o: type(o).__name__)
+        imports = _MODEL_IMPORTS
+        native_call = "args['self']._landscape_shape(args['max_shifts'], args['upsample'])"
+        result = _shape3
+        ensures = {"announced": "len(result) == 3 and all(result[a] == lds_len(cls_kind(self), max_shifts[a], upsample, "
+                                "self._template.shape[a]) for a in range(3))"}
+
+
+# ---------------------------------------------------------------------------
+# the lazily constructed landscape: one task per molecule, declared shape == computed shape
+from contracts.common import TLoader, TMolecules, NATIVE_IMPORTS
+from pyvc import loops as _loops
+from pyvc.arrays import SArr as _SArr
+
+
+@contract("acryo.loader._misc:dict_iterrows", props=["C10", "C03"])
+class dict_iterrows:
+    """generator driven by next()/StopIteration (outside the executor's subset): trusted to yield, for i = 0.. up to the
+    shortest value, the row {key: value[i]}"""
+    trusted = True
+
+    @staticmethod
+    def result(interp, bound):
+        d = bound["d"]
+        gets, ns = {}, []
+        for k, v in d.items():
+            si = _loops.siter(v)
+            if si is None:
+                seq = list(interp.iterate(v))
+                si = (len(seq), (lambda seq: lambda i: _loops._seq_get(seq, i))(seq))
+            ns.append(si[0])
+            gets[k] = si[1]
+        if any(not V.is_sym(m) and m == 0 for m in ns):
+            return []
+        n = ns[0]
+        for m in ns[1:]:
+            if not (V.is_sym(n) and V.is_sym(m) and n.t.eq(m.t)) and not (not V.is_sym(n) and not V.is_sym(m) and n == m):
+                n = V.smin(n, m)
+        if not V.is_sym(n):
+            return [{k: g(i) for k, g in gets.items()} for i in range(n)]
+        return _loops.SList(n, lambda i: {k: g(i) for k, g in gets.items()})
+    ensures = {}
+
+
+class TModelFactory(TSpec):
+    """`alignment_model`: a callable (template, mask) -> constructed model of one concrete class whose box is the
+    template's shape"""
+
+    def __init__(self, kinds=_MODELS):
+        self.kinds = kinds
+
+    def cases(self):
+        return [_TModelFactoryCase(k) for k in self.kinds]
+
+
+class _TModelFactoryCase(TSpec):
+    def __init__(self, kind):
+        self.kind, self.value = kind, kind
+
+    def fresh(self, name, path):
+        kind = self.kind
+
+        def factory(template, mask=None, **kw):
+            m = _TAlignModelCase(kind, False).fresh(name + "_model", path)
+            s = tuple(template.shape)
+            for a in range(3):
+                path.assume(V.compare("==", m.attrs["_template"].shape[a], s[a]))
+            return m
+        factory._pyvc_native = True
+        return factory
+
+    def src(self, name, model):
+        return f"getattr(_alm, {self.kind!r})"
+
+
+def _replay_construct_landscape(ob_name, meta, model):
+    kind = meta["case_tags"].get("alignment_model", "ZNCCAlignment") if "case_tags" in meta else "ZNCCAlignment"
+    return f'''
+import numpy as np
+from fractions import Fraction
+from acryo import SubtomogramLoader, Molecules
+import acryo.alignment as _alm
+kind = {kind!r}
+def num(k, d):
+    v = model.get(k, d)
+    return float(Fraction(str(v))) if not isinstance(v, (int, float)) else float(v)
+up = int(min(max(num("upsample", 1), 1), 4))
+scale = num("self_scale", 1.0)
+ms = model.get("max_shifts", None)
+if ms is None:
+    ms = tuple(num("max_shifts_%d" % a, 1.5) for a in range(3))
+else:
+    ms = num("max_shifts", 1.5)
+box = tuple(int(min(max(num("template_shape_%d" % a, 7), 3), 9)) for a in range(3))
+# keep the search range of the replay small (the declared/computed mismatch does not depend on its size)
+lim = 3.5 * scale
+ms = tuple(min(m, lim) for m in ms) if isinstance(ms, tuple) else min(ms, lim)
+rng = np.random.default_rng(0)
+tomo = rng.normal(size=(32, 32, 32)).astype(np.float32)
+mole = Molecules(np.array([[16, 16, 16], [15, 16, 17]]) * scale)
+loader = SubtomogramLoader(tomo, mole, order=1, scale=scale)
+tmpl = rng.normal(size=box).astype(np.float32)
+arr = loader.construct_landscape(tmpl, max_shifts=ms, alignment_model=getattr(_alm, kind), upsample=up)
+declared = tuple(arr.shape)
+computed = tuple(arr.compute().shape)
+print(kind, "max_shifts", ms, "scale", scale, "upsample", up, "box", box, ": declared", declared, "computed", computed)
+ok = declared == computed
+print("clause holds natively (declared shape == computed shape):", ok)
+print("CONFIRMED" if not ok else "NOT-CONFIRMED"); sys.exit(1 if not ok else 0)
+'''
+
+
+_NMOL = "self._molecules._pos.shape[0]"
+_LS = "BaseAlignmentModel.landscape"
+
+
+@contract("acryo.loader._base:LoaderBase.construct_landscape", props=["C10", "C03"])
+class construct_landscape:
+    """The lazy landscape stack reports the shape that computing it yields (the from_delayed obligation
+    `safety.declared_shape`: dask never checks it), for every search range, scale, up-sampling factor and model; task i
+    is molecule i: its sub-volume, its orientation and its position."""
+    params = dict(self=TLoader(TMolecules(), order=1), template=_IMG, mask=T.Const(None),
+                  max_shifts=T.OneOf(T.Real(lo=0), _MS), alignment_model=TModelFactory(), upsample=T.Int(lo=1))
+    helpers = dict(_HL, qrow=lambda rot, i, c: rot.as_quat()[i, c])
+    replay = staticmethod(_replay_construct_landscape)
+    # (no molecule at all: dask cannot stack an empty list -- the same error for every scheduler)
+    may_raise = {"SubvolumeOutOfBoundError": "True", "ValueError": f"{_NMOL} == 0"}
+    ensures = {
+        "one_row_per_molecule": f"result.shape[0] == {_NMOL}",
+        "task_i_loads_subvolume_i":
+            f"forall(lambda i: arr_eq(called_args_at('{_LS}', i)['img'], called('construct_loading_tasks')._arrays[i]), (0, {_NMOL}))",
+        "task_i_gets_position_i":
+            f"forall(lambda i: all(called_args_at('{_LS}', i)['pos'][a] == self._molecules._pos[i, a] / self._scale "
+            f"for a in range(3)), (0, {_NMOL}))",
+        "task_i_gets_orientation_i":
+            f"forall(lambda i: all(called_args_at('{_LS}', i)['quaternion'][c] == qrow(self._molecules._rotator, i, c) "
+            f"for c in range(4)), (0, {_NMOL}))",
+        "same_range_and_factor":
+            f"forall(lambda i: called_args_at('{_LS}', i)['upsample'] == upsample, (0, {_NMOL}))",
+    }
+
+
+# ---------------------------------------------------------------------------
+# memoised helper grids are shared between all tasks (functools.lru_cache): their callers, verified for other
+# properties, also count here -- but only with their frame obligations (`frame.cached_result_mutated` fails when a
+# caller updates a memoised array in place; `frame.cached_results_read_only` records the memoised helpers a path used)
+import contracts.C05_range, contracts.C08_wedge, contracts.C16_lowpass   # noqa: E402
+from pyvc.contract import REGISTRY as _REG
+
+CACHED_HELPER_CALLERS = [
+    "acryo.tilt._single:SingleAxis.create_mask",            # get_norms_y / get_norms_x / get_indices
+    "acryo.backend._missing_wedge:missing_wedge_mask",     # _get_unrotated_normals / _get_indices
+    "acryo._utils:missing_wedge_mask",
+    "acryo._utils:lowpass_filter", "acryo.backend._bandpass:lowpass_filter",            # nd_butterworth_weight
+    "acryo._utils:lowpass_filter_ft", "acryo.backend._bandpass:lowpass_filter_ft",
+    "acryo.backend._zncc:ncc_landscape",                    # _get_padding_width
+]
+for _k in CACHED_HELPER_CALLERS:
+    if _k in _REG:
+        if "C10" not in _REG[_k].props:
+            _REG[_k].props.append("C10")
+        _REG[_k].only["C10"] = ["frame."]
